@@ -264,7 +264,7 @@ PROPS['C16'] = dict(
 
 PROPS['C15'] = dict(
     level='exploration',
-    rule='choice tape -> cubic/quintic/septic trajectory (duration 2^k, k in -10..10, or log-uniform real in [1e-3,1e3]; boundary values integers |v|<=1000 (all derivatives non-zero in 3/4 of the cases) or reals '
+    rule='two builds: a_real = double and float (u of the type in every bound). choice tape -> cubic/quintic/septic trajectory (duration 2^k, k in -10..10, or log-uniform real in [1e-3,1e3]; boundary values integers |v|<=1000 (all derivatives non-zero in 3/4 of the cases) or reals '
          '2^-10..2^10) or a polynomial (n in 0..13 coefficients, integer or real, evaluation point). Oracle in exact rational arithmetic (GMP mpq, doubles convert exactly): pos(0)=p0 and vel(0)=v0 exactly, acc(0)/jer(0) '
          'within 2 ulp; stored coefficients against the exactly solved boundary-value problem and end values of the stored polynomial against the requested ones within 16384*u*falling(deg,k)*S/T^k (S = sum of |boundary data| in position units); '
          'accessor outputs = exact derivative coefficients of the stored polynomial (2 ulp), vel/acc/jer(x) = exact derivatives of the stored position polynomial within the Horner bound at 4 query times (inside, at and outside [0,T]); '
@@ -272,9 +272,11 @@ PROPS['C15'] = dict(
          'non-trivial = all boundary derivatives non-zero and T != 1, or a polynomial with n >= 1; distinct = hash of decoded parameters',
     assumptions=COMMON_ASSUME + ['durations in [2^-10, 2^10] and boundary magnitudes <= 2^10 (no intermediate overflow; the statement\'s "many orders of magnitude")',
                                  'tolerance constant 16384 on u*scale is about 25x the largest ratio seen on the unchanged tree (evidence: metrics)'],
-    units=lambda tier, seed: [Unit('poly', 'exec/C15.cc', ['a.c', 'poly.c', 'trajpoly3.c', 'trajpoly5.c', 'trajpoly7.c'], libs=['-lgmpxx', '-lgmp'], tape_len=128)],
-    plan={'quick': dict(rc_procs=10, rc_cases=12000, fuzz_procs=6, fuzz_secs=25),
-          'thorough': dict(rc_procs=8, rc_cases=200000, fuzz_procs=8, fuzz_secs=240)},
+    units=lambda tier, seed: [Unit(nm, 'exec/C15.cc', ['a.c', 'poly.c', 'trajpoly3.c', 'trajpoly5.c', 'trajpoly7.c'], defs=config_defs(real), libs=['-lgmpxx', '-lgmp'], tape_len=128,
+                                   config='a_real = %s (A_SIZE_REAL=%d)' % (ty, real))
+                              for nm, real, ty in (('poly', 8, 'double'), ('poly-f32', 4, 'float'))],
+    plan={'quick': dict(rc_procs=6, rc_cases=12000, fuzz_procs=3, fuzz_secs=25),
+          'thorough': dict(rc_procs=6, rc_cases=200000, fuzz_procs=4, fuzz_secs=240)},
     tolerances={'end_values_and_coefficients': '16384*u*falling(deg,k)*S/T^k', 'horner': '4*(2n+6)*u*sum|c_i||x|^i', 'accessors': '2 ulp'},
     technique='property-based testing against an exact rational (GMP) reference: exact solution of the boundary-value problem and exact derivatives of the stored polynomial; rapidcheck tapes + libFuzzer under ASan',
     level_text='generated durations, boundary data and query times judged in exact rational arithmetic with stated rounding bounds; sampling, not proof',
